@@ -1,27 +1,28 @@
 #!/bin/bash
 # Regression over all seeded changes (seeded/*/patch.diff, incl. the plain mutants S-*): apply each
-# to /repo, run the property's quick check, revert. No cargo test of the repo (that part is
+# to $REPO, run the property's quick check, revert. No cargo test of the repo (that part is
 # tools/verify_seeded.sh / verify_small.sh, whose verify.txt stays as the record). Prints one line
 # per change and a summary; exit 0 iff every change except the documented misses is caught.
 # Usage: tools/recheck_seeded.sh [filter]
 set -u
+REPO="${REPO:-/repo}"; VERIF="${VERIF:-/verif}"; export VERIF_REPO="$REPO"
 filter="${1:-}"
-cd /verif || exit 2
-if ! git -C /repo diff --quiet; then echo "refusing: /repo has uncommitted changes" >&2; exit 2; fi
+cd $VERIF || exit 2
+if ! git -C $REPO diff --quiet; then echo "refusing: $REPO has uncommitted changes" >&2; exit 2; fi
 caught=0; missed=0; other=0
 for d in seeded/*/; do
   id=$(basename "$d")
   case "$id" in *"$filter"*) ;; *) continue;; esac
   [ -f "$d/patch.diff" ] || continue
   case "$id" in S-*) prop=$(echo "$id" | cut -d- -f2);; *) prop=${id%%-*};; esac
-  if ! git -C /repo apply "$PWD/$d/patch.diff" 2>/dev/null; then echo "$id: PATCH DOES NOT APPLY"; other=$((other+1)); continue; fi
-  VERIF_OUT=/tmp/verif-recheck-out ./check "$prop" quick >/tmp/recheck.log 2>&1; rc=$?
-  git -C /repo checkout -- . ; git -C /repo clean -fdq -- src parser macros tests docs
+  if ! git -C $REPO apply "$PWD/$d/patch.diff" 2>/dev/null; then echo "$id: PATCH DOES NOT APPLY"; other=$((other+1)); continue; fi
+  VERIF_OUT=/tmp/verif-recheck-out$$ ./check "$prop" quick >/tmp/recheck$$.log 2>&1; rc=$?
+  git -C $REPO checkout -- . ; git -C $REPO clean -fdq -- src parser macros tests docs
   case $rc in
-    1) caught=$((caught+1)); echo "$id: caught ($(grep -m1 -o 'class="[^"]*"' /tmp/recheck.log))";;
+    1) caught=$((caught+1)); echo "$id: caught ($(grep -m1 -o 'class="[^"]*"' /tmp/recheck$$.log))";;
     0) missed=$((missed+1)); echo "$id: MISSED";;
     *) other=$((other+1)); echo "$id: exit $rc";;
   esac
 done
-rm -rf /tmp/verif-recheck-out /tmp/recheck.log
+rm -rf /tmp/verif-recheck-out$$ /tmp/recheck$$.log
 echo "recheck: caught=$caught missed=$missed other=$other"
